@@ -1,7 +1,7 @@
 (* C11 -- model interface and CPU-resident operators preserved verbatim: soundness of the
    validator run on (source, output) summaries. Statements only. *)
 From Coq Require Import ZArith List Bool.
-From VV Require Import model.Preserve proofs.PreserveProofs.
+From VV Require Import model.Preserve proofs.PreserveProofs model.OutputList proofs.OutputListProofs.
 Import ListNotations.
 Open Scope Z_scope.
 
@@ -34,3 +34,33 @@ Theorem check_preserved_model_sound :
 Proof. exact check_preserved_model_sound_lemma. Qed.
 
 Print Assumptions check_preserved_model_sound.
+
+(* The subgraph output list (repo commit 972b4ce; model/OutputList.v): the reader keeps one entry per output tensor
+   and the position of every original entry; whatever the passes do to the entries ELEMENTWISE (f: rewrite_graph,
+   extract_npu_subgraphs) and whatever is appended behind them (virtual outputs), the writer restores a list that has
+   the length, order and repetitions of the source list - position k is the image of the source's k-th output. *)
+Theorem output_list_restored :
+  forall (A : Type) (f : Z -> A) (l : list Z) (extra : list A),
+  restore (map f (dedup l) ++ extra) (positions l) = map (fun x => Some (f x)) l.
+Proof. exact @restore_after_rewrites_lemma. Qed.
+
+Print Assumptions output_list_restored.
+
+(* what the graph holds in between: every output once, nothing else *)
+Theorem output_list_held_once :
+  forall l : list Z,
+  and (NoDup (dedup l))
+      (and (forall x : Z, iff (In x (dedup l)) (In x l))
+           (forall p : option nat, In p (positions l) -> exists i : nat, and (p = Some i) (lt i (length (dedup l))))).
+Proof.
+  intros l. split; [exact (dedup_nodup_lemma l)|]. split; [exact (dedup_same_elements_lemma l)|exact (positions_in_range_lemma l)].
+Qed.
+
+Print Assumptions output_list_held_once.
+
+(* non-vacuity: outputs [10; 10; 4; 10] (corpus/c11_duplicate_outputs lists [10; 10]) *)
+Example output_list_example :
+  and (dedup [10; 10; 4; 10] = [10; 4])
+      (and (positions [10; 10; 4; 10] = [Some 0; Some 0; Some 1; Some 0]%nat)
+           (restore (map (fun t => t + 100) [10; 4] ++ [77]) (positions [10; 10; 4; 10]) = [Some 110; Some 110; Some 104; Some 110])).
+Proof. vm_compute. repeat split. Qed.
